@@ -97,6 +97,11 @@ def run(ch, config, res):
             fail("C15.server-violation", "during %s the server received something illegal: %s %r" % (where, v[2], v[3]))
 
     def connect(client, label):
+        # what the server announces may change from one connection to the next (only the first mechanism matters here)
+        with ch.scope(ch.scope_name + ".sasl" if ch.scope_name else "sasl"):
+            if wl.flag("sasl_changes", 1, 3):
+                sasl[:] = [["PLAIN"], ["DIGEST-MD5"], ["LOGIN"], ["OAUTHBEARER"]][wl.int("sasl_now", 4)]
+                cfg.sasl_pre = sasl
         o = world.call(client, "connect", "user", "password", authz_id=authz) if authz else world.call(client, "connect", "user", "password")
         if not (o.kind == "ret" and o.value is True):
             fail("C15.connect", "%s: connect (SASL %s%s) against a conforming server %r" % (label, sasl[0], ", authz_id=%r" % authz if authz else "", o))
